@@ -170,9 +170,12 @@ class Recorder:
         la = line_access(fn)
         accs = la.by_line.get(frame.f_lineno, ())
         out = []
+        in_ctor = la.func_of_line.get(frame.f_lineno) == "__init__"
         for attr, rw, base in accs:
             if attr not in self.shared:
                 continue
+            if in_ctor and base == "self" and attr not in BUF_ATTRS:
+                continue  # a constructor initialising its own fresh object: thread-local
             recv = frame.f_locals.get(base) if base else None
             loc = self.location(attr, recv, frame)
             if loc is not None:
